@@ -79,7 +79,7 @@ class Check(PropertyCheck):
     theorems = ["C06_one_submitter_per_key", "C06_job_submitted_at_most_once", "C06_submitter_stays_visible",
                 "C06_twin_records_provenance", "C06_refuted_as_shipped", "C06_witness_fixed",
                 "C06_refuted_context_twin", "C06_context_twin_exact",
-                "C06_duplicates_agree", "C06_preset_is_final", "C06_duplicates_agree_nonvacuous",
+                "C06_duplicates_agree", "C06_preset_is_final", "C06_outcome_final", "C06_duplicates_agree_nonvacuous",
                 "C06_duplicate_handed_value_partial", "C06_duplicate_handed_error_partial",
                 "C06_duplicate_done_resolve_partial", "C06_duplicate_cse_hit_partial"]
     variant = None
